@@ -539,7 +539,15 @@ class Identity:
                 else:
                     errs += self.check(have[nm], fld(base, nm), path + "." + nm)
             return errs
+        if t[0] == "app" and t[1] in self.prog.adts and self.prog.adts[t[1]].get("kind", "struct") in ("struct", "Struct"):
+            # a tuple struct built with its constructor function: fields are positional
+            errs = []
+            for i, a in enumerate(t[2]):
+                errs += self.check(a, fld(base, str(i)), path + f".{i}")
+            return errs
         if t[0] == "var":
+            if not t[2] and ("is", base, t[1]) in self.assume:
+                return []
             if base[0] == "var" and base[1] == t[1]:
                 errs = []
                 for i, a in enumerate(t[2]):
